@@ -1,11 +1,905 @@
-//! (stub) binding for this area — see DESIGN.md
-use crate::util::Args;
-use anyhow::Result;
+//! Binding of spec/Cli.tla to the real `ragc` binary (property C17).
+//!
+//! The harness only *drives* the binary and *projects* what it observes:
+//!   exit status -> "ok" (0) / "fail" (anything else: error exit, panic, signal);
+//!   stdout / -o bytes -> item lists: FASTA records are looked up in the synthesized input
+//!     (rec(sample,i)), `listset` lines are decoded to names (smp), `listctg` lines to ctg(sample,i);
+//!   the archive path -> [kind none|bad|good, cat, nrec] by asking the binary itself
+//!     (`listset`, `listctg <name>`), cached by the file's SHA-256.
+//! REPLAY: the behaviours TLC printed for MC_Cli are executed; after every command the observed
+//!   (exit, out, archive) is compared with the outcomes the contract allows (emitted by TLC), and,
+//!   for composed answers, byte for byte with the concatenation of the single-sample answers.
+//! TRACE: every executed command (REPLAY behaviours and seeded random sessions) is logged as an
+//!   event with its observed post-state and validated by TLC against Trace_Cli.tla.
+//!
+//! Names are sequences of character codes (spec) rendered with CODE2CHAR.
+use crate::util::{self, Args};
+use anyhow::{anyhow, bail, Context, Result};
+use rand::rngs::StdRng;
+use rand::Rng;
+use serde_json::{json, Value};
+use std::collections::HashMap;
+use std::io::{BufRead, Write};
+use std::path::{Path, PathBuf};
+use std::sync::atomic::{AtomicUsize, Ordering};
+use std::sync::Mutex;
 
-/// Returns None when `cmd` is not one of this module's sub-commands.
+const CODE2CHAR: [char; 8] = ['?', 'a', 'b', 'c', '#', '0', '1', '_'];
+const K: &str = "11";
+const SEG: &str = "100";
+const MM: &str = "15";
+
 pub fn dispatch(cmd: &str, a: &Args) -> Option<Result<()>> {
-    let _ = a;
     match cmd {
+        "cli-setup" => Some(setup(a)),
+        "replay-cli" => Some(replay(a)),
+        "trace-cli" => Some(trace(a)),
         _ => None,
     }
+}
+
+// ------------------------------------------------------------------------------------------------
+// names and synthesized content
+// ------------------------------------------------------------------------------------------------
+type Name = Vec<u8>;
+
+fn render(n: &[u8]) -> String {
+    n.iter().map(|&c| CODE2CHAR.get(c as usize).copied().unwrap_or('?')).collect()
+}
+fn unrender(s: &str) -> Name {
+    s.chars().map(|ch| CODE2CHAR.iter().position(|&c| c == ch && ch != '?').map(|p| p as u8).unwrap_or(0)).collect()
+}
+fn name_of(v: &Value) -> Name {
+    v.as_array().map(|a| a.iter().map(|x| x.as_u64().unwrap_or(0) as u8).collect()).unwrap_or_default()
+}
+fn is_pansn(n: &[u8]) -> bool {
+    n.contains(&4)
+}
+fn hash_name(n: &[u8]) -> u64 {
+    let mut h: u64 = 0xcbf29ce484222325;
+    for &b in n {
+        h ^= b as u64 + 1;
+        h = h.wrapping_mul(0x100000001b3);
+    }
+    h
+}
+
+/// Record i (1-based) of sample `name`: (header, sequence).  A per-contig base sequence shared by all
+/// samples, changed per sample by substitutions, one deletion and one insertion (so that archives hold
+/// references, deltas and several segments), distinct for distinct names.
+fn record(seed: u64, name: &[u8], i: usize) -> (String, Vec<u8>) {
+    let mut rb = util::rng(seed.wrapping_mul(1_000_003).wrapping_add(i as u64));
+    let len = 500 + (i * 211) % 400 + rb.gen_range(0..300);
+    let base: Vec<u8> = (0..len).map(|_| b"ACGT"[rb.gen_range(0..4)]).collect();
+    let mut r = util::rng(seed ^ hash_name(name).rotate_left(17) ^ (i as u64) << 40);
+    let mut s = base;
+    for _ in 0..(s.len() / 60).max(2) {
+        let p = r.gen_range(0..s.len());
+        s[p] = b"ACGT"[r.gen_range(0..4)];
+    }
+    let d = r.gen_range(0..s.len() - 40);
+    let dl = r.gen_range(3..30);
+    s.drain(d..d + dl);
+    let ip = r.gen_range(0..s.len());
+    let ins: Vec<u8> = (0..r.gen_range(4..24)).map(|_| b"ACGT"[r.gen_range(0..4)]).collect();
+    // a tag that makes samples pairwise different whatever the random edits did
+    let tag: Vec<u8> = name.iter().flat_map(|&c| [b"ACGT"[(c & 3) as usize], b"ACGT"[((c >> 2) & 3) as usize]]).collect();
+    let tail = s.split_off(ip);
+    s.extend_from_slice(&ins);
+    s.extend_from_slice(&tag);
+    s.extend_from_slice(&tail);
+    let header = if is_pansn(name) { format!("{}#ctg{}", render(name), i) } else { format!("ctg{}", i) };
+    (header, s)
+}
+
+fn fasta_of(seed: u64, samples: &[(Name, usize)]) -> Vec<u8> {
+    let mut out = Vec::new();
+    for (n, k) in samples {
+        for i in 1..=*k {
+            let (h, s) = record(seed, n, i);
+            out.push(b'>');
+            out.extend_from_slice(h.as_bytes());
+            out.push(b'\n');
+            for c in s.chunks(60) {
+                out.extend_from_slice(c);
+                out.push(b'\n');
+            }
+        }
+    }
+    out
+}
+
+// ------------------------------------------------------------------------------------------------
+// running the binary
+// ------------------------------------------------------------------------------------------------
+struct Run {
+    ms: u64,
+    argv: Vec<String>,
+    code: Option<i32>,
+    stdout: Vec<u8>,
+    stderr: String,
+}
+impl Run {
+    fn exit(&self) -> &'static str {
+        if self.code == Some(0) { "ok" } else { "fail" }
+    }
+}
+
+static RUNS: AtomicUsize = AtomicUsize::new(0);
+
+fn run_bin(ragc: &str, args: &[String], wd: &Path) -> Result<Run> {
+    let n = RUNS.fetch_add(1, Ordering::SeqCst);
+    let so = wd.join(format!("stdout_{}", n));
+    let se = wd.join(format!("stderr_{}", n));
+    let mut child = std::process::Command::new(ragc)
+        .args(args)
+        .current_dir(wd)
+        .env("RUST_BACKTRACE", "0")
+        .stdin(std::process::Stdio::null())
+        .stdout(std::fs::File::create(&so)?)
+        .stderr(std::fs::File::create(&se)?)
+        .spawn()
+        .with_context(|| format!("cannot start {}", ragc))?;
+    let t0 = std::time::Instant::now();
+    let status = loop {
+        if let Some(st) = child.try_wait()? {
+            break st;
+        }
+        if t0.elapsed().as_secs() > 600 {
+            let _ = child.kill();
+            bail!("timeout (600 s) running ragc {:?}", args); // a tool error, never a verdict
+        }
+        std::thread::sleep(std::time::Duration::from_millis(if t0.elapsed().as_millis() < 200 { 2 } else { 20 }));
+    };
+    let stdout = std::fs::read(&so)?;
+    let stderr = String::from_utf8_lossy(&std::fs::read(&se)?).to_string();
+    let _ = std::fs::remove_file(&so);
+    let _ = std::fs::remove_file(&se);
+    let mut argv = vec!["ragc".to_string()];
+    argv.extend(args.iter().cloned());
+    Ok(Run { ms: t0.elapsed().as_millis() as u64, argv, code: status.code(), stdout, stderr: stderr.chars().rev().take(600).collect::<String>().chars().rev().collect() })
+}
+
+// ------------------------------------------------------------------------------------------------
+// observing the archive path
+// ------------------------------------------------------------------------------------------------
+#[derive(Clone, PartialEq, Debug)]
+struct Arch {
+    kind: String,
+    cat: Vec<Name>,
+    nrec: Vec<usize>,
+}
+impl Arch {
+    fn none() -> Self {
+        Arch { kind: "none".into(), cat: vec![], nrec: vec![] }
+    }
+    fn bad() -> Self {
+        Arch { kind: "bad".into(), cat: vec![], nrec: vec![] }
+    }
+    fn to_json(&self) -> Value {
+        json!({"kind": self.kind, "cat": self.cat, "nrec": self.nrec})
+    }
+    fn from_json(v: &Value) -> Self {
+        Arch {
+            kind: v["kind"].as_str().unwrap_or("any").to_string(),
+            cat: v["cat"].as_array().map(|a| a.iter().map(name_of).collect()).unwrap_or_default(),
+            nrec: v["nrec"].as_array().map(|a| a.iter().map(|x| x.as_u64().unwrap_or(0) as usize).collect()).unwrap_or_default(),
+        }
+    }
+}
+
+struct World {
+    ragc: String,
+    seed: u64,
+    obs: Mutex<HashMap<String, Arch>>,            // sha -> observed archive state
+    singles: Mutex<HashMap<(String, String, String), Option<Vec<u8>>>>, // (sha, cmd, name) -> stdout of the single-sample answer
+    /// behaviours that share their first step (create of the older archive from an empty path) execute it once:
+    /// command text -> (archive bytes it left, event, exit)
+    shared_first: Mutex<HashMap<String, (Vec<u8>, Value, &'static str, Arch)>>,
+}
+
+fn path_sig(p: &Path) -> String {
+    match std::fs::metadata(p) {
+        Err(_) => "none".to_string(),
+        Ok(m) if m.is_dir() => "dir".to_string(),
+        Ok(_) => match std::fs::read(p) {
+            Ok(b) => util::sha256_hex(&b),
+            Err(_) => "unreadable".to_string(),
+        },
+    }
+}
+
+impl World {
+    /// [kind, cat, nrec] of whatever is at `agc`, as the binary itself reports it.
+    fn observe(&self, agc: &Path, wd: &Path) -> Result<Arch> {
+        let sig = path_sig(agc);
+        if sig == "none" {
+            return Ok(Arch::none());
+        }
+        if let Some(a) = self.obs.lock().unwrap().get(&sig) {
+            return Ok(a.clone());
+        }
+        let a = self.observe_uncached(agc, wd)?;
+        self.obs.lock().unwrap().insert(sig, a.clone());
+        Ok(a)
+    }
+    fn observe_uncached(&self, agc: &Path, wd: &Path) -> Result<Arch> {
+        let r = run_bin(&self.ragc, &["listset".into(), agc.to_string_lossy().to_string()], wd)?;
+        if r.exit() != "ok" {
+            return Ok(Arch::bad());
+        }
+        let text = String::from_utf8_lossy(&r.stdout).to_string();
+        let mut cat = vec![];
+        let mut nrec = vec![];
+        for line in text.lines() {
+            let r2 = run_bin(&self.ragc, &["listctg".into(), agc.to_string_lossy().to_string(), line.to_string()], wd)?;
+            if r2.exit() != "ok" {
+                return Ok(Arch::bad());
+            }
+            cat.push(unrender(line));
+            nrec.push(String::from_utf8_lossy(&r2.stdout).lines().count());
+        }
+        Ok(Arch { kind: "good".into(), cat, nrec })
+    }
+    /// stdout of `getset agc name` / `listctg agc name` (None when that command fails)
+    fn single(&self, agc: &Path, wd: &Path, cmd: &str, name: &[u8]) -> Result<Option<Vec<u8>>> {
+        let key = (path_sig(agc), cmd.to_string(), render(name));
+        if let Some(v) = self.singles.lock().unwrap().get(&key) {
+            return Ok(v.clone());
+        }
+        let r = run_bin(&self.ragc, &[cmd.to_string(), agc.to_string_lossy().to_string(), render(name)], wd)?;
+        let v = if r.exit() == "ok" { Some(r.stdout) } else { None };
+        self.singles.lock().unwrap().insert(key, v.clone());
+        Ok(v)
+    }
+}
+
+// ------------------------------------------------------------------------------------------------
+// projections of output bytes
+// ------------------------------------------------------------------------------------------------
+fn item(t: &str, s: &[u8], i: usize) -> Value {
+    json!({"t": t, "s": s, "i": i})
+}
+
+fn ctg_index(header: &str) -> usize {
+    header.rsplit("ctg").next().and_then(|x| x.parse::<usize>().ok()).unwrap_or(0)
+}
+
+/// FASTA bytes -> rec items; a record that is not record i of one of the `known` samples is rec(<<>>,0)
+fn project_fasta(seed: u64, bytes: &[u8], known: &[(Name, usize)]) -> Vec<Value> {
+    let mut recs: Vec<(String, Vec<u8>)> = vec![];
+    let mut junk = false;
+    for line in bytes.split(|&b| b == b'\n') {
+        let line = if line.ends_with(b"\r") { &line[..line.len() - 1] } else { line };
+        if line.is_empty() {
+            continue;
+        }
+        if line[0] == b'>' {
+            recs.push((String::from_utf8_lossy(&line[1..]).to_string(), vec![]));
+        } else if let Some(l) = recs.last_mut() {
+            l.1.extend_from_slice(line);
+        } else {
+            junk = true;
+        }
+    }
+    let mut out = vec![];
+    if junk {
+        out.push(item("junk", &[], 0));
+    }
+    for (h, s) in recs {
+        let i = ctg_index(&h);
+        let mut hit = None;
+        for (n, k) in known {
+            if i >= 1 && i <= *k {
+                let (eh, es) = record(seed, n, i);
+                if eh == h && es == s {
+                    hit = Some(n.clone());
+                    break;
+                }
+            }
+        }
+        match hit {
+            Some(n) => out.push(item("rec", &n, i)),
+            None => out.push(item("rec", &[], 0)),
+        }
+    }
+    out
+}
+
+fn project_listset(bytes: &[u8]) -> Vec<Value> {
+    String::from_utf8_lossy(bytes).lines().map(|l| item("smp", &unrender(l), 0)).collect()
+}
+
+fn project_listctg(bytes: &[u8]) -> Vec<Value> {
+    String::from_utf8_lossy(bytes)
+        .lines()
+        .map(|l| {
+            let mut it = l.splitn(2, '\t');
+            let s = it.next().unwrap_or("");
+            let c = it.next().unwrap_or("");
+            let n = unrender(s);
+            let expect = if is_pansn(&n) { format!("{}#ctg{}", s, ctg_index(c)) } else { format!("ctg{}", ctg_index(c)) };
+            item("ctg", &n, if expect == c { ctg_index(c) } else { 0 })
+        })
+        .collect()
+}
+
+// ------------------------------------------------------------------------------------------------
+// executing one command of the model
+// ------------------------------------------------------------------------------------------------
+struct Observed {
+    run: Run,
+    exit: &'static str,
+    out: Vec<Value>,
+    bytes: Option<Vec<u8>>, // destination bytes (None: -o file absent)
+    post: Arch,
+}
+
+fn samples_of(v: &Value) -> Vec<(Name, usize)> {
+    v.as_array()
+        .map(|a| a.iter().map(|s| (name_of(&s["name"]), s["nrec"].as_u64().unwrap_or(0) as usize)).collect())
+        .unwrap_or_default()
+}
+
+fn qcap_arg(q: &str) -> Option<String> {
+    match q {
+        "default" => None,
+        "small" => Some("2K".to_string()),
+        "invalid" => Some("12Q".to_string()),
+        other => Some(other.to_string()),
+    }
+}
+
+/// Execute `cmd` (a command record of Cli.tla) with the archive at `agc`; `step` makes file names unique.
+fn execute(w: &World, cmd: &Value, agc: &Path, wd: &Path, step: usize, known: &mut Vec<(Name, usize)>) -> Result<Observed> {
+    let kind = cmd["cmd"].as_str().unwrap_or("");
+    let agc_s = agc.to_string_lossy().to_string();
+    let mut args: Vec<String> = vec![];
+    let mut dest_file: Option<PathBuf> = None;
+    match kind {
+        "create" => {
+            let target = if cmd["outpath"].as_str() == Some("ok") { agc_s.clone() } else { wd.join("no_such_dir").join("x.agc").to_string_lossy().to_string() };
+            args.extend(["create".into(), "-o".into(), target, "-k".into(), K.into(), "-s".into(), SEG.into(), "-m".into(), MM.into(), "-v".into(), "0".into()]);
+            args.extend(["-t".into(), cmd["threads"].as_u64().unwrap_or(1).to_string()]);
+            if let Some(q) = qcap_arg(cmd["qcap"].as_str().unwrap_or("default")) {
+                args.extend(["--queue-capacity".into(), q]);
+            }
+            for (f, flag) in [("batch", "--batch"), ("adaptive", "--adaptive"), ("concat", "--concatenated")] {
+                if cmd[f].as_bool() == Some(true) {
+                    args.push(flag.into());
+                }
+            }
+            let inputs = cmd["inputs"].as_array().cloned().unwrap_or_default();
+            for (i, f) in inputs.iter().enumerate() {
+                let ss = samples_of(&f["samples"]);
+                for s in &ss {
+                    if !known.contains(s) {
+                        known.push(s.clone());
+                    }
+                }
+                let stem = if ss.len() == 1 && !is_pansn(&ss[0].0) { render(&ss[0].0) } else { format!("pansn{}", i) };
+                let dir = wd.join(format!("in{}_{}", step, i));
+                std::fs::create_dir_all(&dir)?;
+                let path = dir.join(format!("{}.fa", stem));
+                if f["readable"].as_bool() == Some(true) {
+                    std::fs::write(&path, fasta_of(w.seed, &ss))?;
+                } else if i == 0 {
+                    // unreadable: no such file
+                } else if cmd["threads"].as_u64() == Some(1) {
+                    std::fs::create_dir_all(&path)?; // unreadable: a directory
+                } else {
+                    // unreadable: a gzip stream cut in the middle (`<stem>.fa.gz` names the same sample)
+                    use flate2::{write::GzEncoder, Compression};
+                    let mut enc = GzEncoder::new(Vec::new(), Compression::default());
+                    enc.write_all(&fasta_of(w.seed, &ss))?;
+                    let gz = enc.finish()?;
+                    let gzpath = dir.join(format!("{}.fa.gz", stem));
+                    std::fs::write(&gzpath, &gz[..gz.len() / 2])?;
+                    args.push(gzpath.to_string_lossy().to_string());
+                    continue;
+                }
+                args.push(path.to_string_lossy().to_string());
+            }
+        }
+        "getset" | "listset" | "listctg" => {
+            args.push(kind.into());
+            args.push(agc_s.clone());
+            if kind != "listset" {
+                if cmd["mode"].as_str() == Some("prefix") && kind == "getset" {
+                    args.push("-p".into());
+                    args.push(render(&name_of(&cmd["prefix"])));
+                } else {
+                    for n in cmd["names"].as_array().cloned().unwrap_or_default() {
+                        args.push(render(&name_of(&n)));
+                    }
+                }
+            }
+            match cmd["dest"].as_str().unwrap_or("stdout") {
+                "file" => {
+                    let p = wd.join(format!("out_{}.txt", step));
+                    let _ = std::fs::remove_file(&p);
+                    args.push("-o".into());
+                    args.push(p.to_string_lossy().to_string());
+                    dest_file = Some(p);
+                }
+                "badfile" => {
+                    let p = wd.join("no_such_dir").join(format!("out_{}.txt", step));
+                    args.push("-o".into());
+                    args.push(p.to_string_lossy().to_string());
+                    dest_file = Some(p);
+                }
+                _ => {}
+            }
+        }
+        other => bail!("unknown model command {}", other),
+    }
+    let run = run_bin(&w.ragc, &args, wd)?;
+    let post = w.observe(agc, wd)?;
+    for (n, k) in post.cat.iter().zip(post.nrec.iter()) {
+        if !known.contains(&(n.clone(), *k)) {
+            known.push((n.clone(), *k));
+        }
+    }
+    let bytes: Option<Vec<u8>> = match (&dest_file, kind) {
+        (_, "create") => Some(vec![]),
+        (Some(p), _) => std::fs::read(p).ok(),
+        (None, _) => Some(run.stdout.clone()),
+    };
+    let out = match (kind, &bytes) {
+        ("getset", Some(b)) => project_fasta(w.seed, b, known),
+        ("listset", Some(b)) => project_listset(b),
+        ("listctg", Some(b)) => project_listctg(b),
+        ("create", _) => vec![],
+        _ => vec![item("nofile", &[], 0)],
+    };
+    let exit = run.exit();
+    Ok(Observed { run, exit, out, bytes, post })
+}
+
+fn event(cmd: &Value, o: &Observed) -> Value {
+    json!({"ev": "run", "cmd": cmd, "exit": o.exit, "out": o.out, "post": o.post.to_json(), "argv": o.run.argv, "code": o.run.code.unwrap_or(-1), "ms": o.run.ms})
+}
+
+/// The contract check on one observed step, with what TLC emitted for it.
+/// Returns (kind of mismatch, detail) or None.
+fn judge(w: &World, e: &Value, pre: &Arch, o: &Observed, agc: &Path, wd: &Path) -> Result<Option<(String, String)>> {
+    let cmd = &e["cmd"];
+    let kind = cmd["cmd"].as_str().unwrap_or("");
+    if kind == "create" {
+        if o.exit == "fail" {
+            return Ok(None);
+        }
+        if e["mustfail"].as_bool() == Some(true) {
+            return Ok(Some(("exit".into(), "create exited 0 although an input was unreadable / the output unwritable".into())));
+        }
+        if o.post.kind != "good" {
+            return Ok(Some(("create-archive".into(), format!("create exited 0 but the archive path holds: {}", o.post.kind))));
+        }
+        for (n, k) in samples_of(&e["lists"]) {
+            match o.post.cat.iter().position(|c| *c == n) {
+                None => return Ok(Some(("create-lists".into(), format!("create exited 0 but the archive does not list input sample {}", render(&n))))),
+                Some(p) if o.post.nrec[p] != k => {
+                    return Ok(Some(("create-lists".into(), format!("sample {} lists {} contigs, input has {}", render(&n), o.post.nrec[p], k))))
+                }
+                _ => {}
+            }
+        }
+        return Ok(None);
+    }
+    if o.post != *pre {
+        return Ok(Some(("frame".into(), format!("{} changed the archive: {:?} -> {:?}", kind, pre, o.post))));
+    }
+    let allowed = e["allowed"].as_array().cloned().unwrap_or_default();
+    let hit = allowed.iter().find(|a| a["exit"].as_str() == Some(o.exit) && (o.exit == "fail" || a["out"].as_array().map(|x| x == &o.out).unwrap_or(false)));
+    let hit = match hit {
+        Some(h) => h,
+        None => {
+            let exits: Vec<&str> = allowed.iter().filter_map(|a| a["exit"].as_str()).collect();
+            return Ok(Some(if !exits.contains(&o.exit) {
+                ("exit".into(), format!("exit is {} (code {:?}); the contract allows {:?}", o.exit, o.run.code, exits))
+            } else {
+                ("out".into(), format!("output items {} differ from the contract's {}", Value::Array(o.out.clone()), allowed.iter().find(|a| a["exit"] == "ok").map(|a| a["out"].to_string()).unwrap_or_default()))
+            }));
+        }
+    };
+    // byte-level composition: the answer is the concatenation of the single-sample answers
+    if o.exit == "ok" && kind != "listset" {
+        let parts: Vec<Name> = hit["parts"].as_array().map(|a| a.iter().map(name_of).collect()).unwrap_or_default();
+        if !parts.is_empty() {
+            let mut cat = vec![];
+            for p in &parts {
+                match w.single(agc, wd, kind, p)? {
+                    Some(b) => cat.extend(b),
+                    None => return Ok(Some(("single".into(), format!("single-sample {} of {} fails", kind, render(p))))),
+                }
+            }
+            if o.bytes.as_deref() != Some(&cat[..]) {
+                return Ok(Some(("bytes".into(), format!("{} bytes written, concatenation of the single-sample answers has {}", o.bytes.as_ref().map(|b| b.len()).unwrap_or(0), cat.len()))));
+            }
+        }
+    }
+    Ok(None)
+}
+
+/// Put the model's initial archive state at `agc`; returns the variants to run (bad: several kinds of damage).
+fn establish(pre: &Arch, std_agc: Option<&str>, agc: &Path, variant: usize) -> Result<bool> {
+    let _ = std::fs::remove_file(agc);
+    let _ = std::fs::remove_dir_all(agc);
+    match pre.kind.as_str() {
+        "none" => Ok(variant == 0),
+        "good" => {
+            if variant > 0 {
+                return Ok(false);
+            }
+            std::fs::copy(std_agc.ok_or_else(|| anyhow!("behaviour starts from an archive but --agc is missing"))?, agc)?;
+            Ok(true)
+        }
+        "bad" => {
+            match variant {
+                0 => std::fs::write(agc, b"")?,
+                1 => std::fs::write(agc, b">ctg1\nACGTACGTACGT\nthis is not an archive\n".repeat(40))?,
+                2 => std::fs::create_dir_all(agc)?,
+                3 => {
+                    let b = std::fs::read(std_agc.ok_or_else(|| anyhow!("--agc missing"))?)?;
+                    std::fs::write(agc, &b[..b.len() - 16.min(b.len())])?; // footer cut off
+                }
+                _ => return Ok(false),
+            }
+            Ok(true)
+        }
+        k => bail!("cannot establish archive state {}", k),
+    }
+}
+
+// ------------------------------------------------------------------------------------------------
+// rvh replay-cli
+// ------------------------------------------------------------------------------------------------
+fn replay(a: &Args) -> Result<()> {
+    let w = World { ragc: a.get("ragc")?.to_string(), seed: a.num("seed", 1u64), obs: Mutex::new(HashMap::new()), singles: Mutex::new(HashMap::new()), shared_first: Mutex::new(HashMap::new()) };
+    let dir = PathBuf::from(a.get("dir")?);
+    std::fs::create_dir_all(&dir)?;
+    let std_agc = a.opt("agc").map(|s| s.to_string());
+    let jobs: usize = a.num("jobs", 4usize);
+    let fh = std::io::BufReader::new(std::fs::File::open(a.get("in")?)?);
+    let mut behs: Vec<Value> = vec![];
+    for line in fh.lines() {
+        let line = line?;
+        if !line.trim().is_empty() {
+            behs.push(serde_json::from_str(&line)?);
+        }
+    }
+    let next = AtomicUsize::new(0);
+    struct Acc {
+        events: Vec<(usize, usize, Vec<Value>)>,
+        fails: Vec<Value>,
+        steps: usize,
+        executions: usize,
+        diverged: Vec<Value>,
+        composed: usize,
+        creates_ok: usize,
+        failures_seen: usize,
+        skipped_variants: usize,
+        err: Option<String>,
+    }
+    let acc = Mutex::new(Acc { events: vec![], fails: vec![], steps: 0, executions: 0, diverged: vec![], composed: 0, creates_ok: 0, failures_seen: 0, skipped_variants: 0, err: None });
+    std::thread::scope(|sc| {
+        for _ in 0..jobs.max(1) {
+            sc.spawn(|| loop {
+                let bi = next.fetch_add(1, Ordering::SeqCst);
+                if bi >= behs.len() || acc.lock().unwrap().err.is_some() {
+                    break;
+                }
+                let b = &behs[bi];
+                let steps = b["steps"].as_array().cloned().unwrap_or_default();
+                if steps.is_empty() {
+                    continue;
+                }
+                let pre0 = Arch::from_json(&steps[0]["pre"]);
+                for variant in 0..5 {
+                    let wd = dir.join(format!("b{}_{}", bi, variant));
+                    let r = (|| -> Result<()> {
+                        std::fs::create_dir_all(&wd)?;
+                        let agc = wd.join("a.agc");
+                        if !establish(&pre0, std_agc.as_deref(), &agc, variant)? {
+                            return Ok(());
+                        }
+                        let mut known: Vec<(Name, usize)> = pre0.cat.iter().cloned().zip(pre0.nrec.iter().cloned()).collect();
+                        let mut cur = w.observe(&agc, &wd)?;
+                        if cur != pre0 {
+                            // the binary reads this damaged file as an archive: not an "unreadable archive" case
+                            acc.lock().unwrap().skipped_variants += 1;
+                            return Ok(());
+                        }
+                        let mut evs = vec![json!({"ev": "start", "post": cur.to_json(), "b": bi, "variant": variant})];
+                        acc.lock().unwrap().executions += 1;
+                        for (si, e) in steps.iter().enumerate() {
+                            // a successful first create that is followed by another create is the common prefix of
+                            // many behaviours: it is executed (and judged) once, later behaviours start from its result
+                            let shareable = si == 0 && steps.len() > 1 && e["cmd"]["cmd"] == "create" && steps[1]["cmd"]["cmd"] == "create" && cur.kind == "none";
+                            if shareable {
+                                let key = e["cmd"].to_string();
+                                let mut g = w.shared_first.lock().unwrap(); // held while the first one executes
+                                if let Some((bytes, ev, exit, post)) = g.get(&key) {
+                                    if *exit == "ok" && Arch::from_json(&e["chosen"]["arch"]) == *post {
+                                        std::fs::write(&agc, bytes)?;
+                                        let mut ev = ev.clone();
+                                        ev["shared"] = json!(true);
+                                        evs.push(ev);
+                                        cur = post.clone();
+                                        for (n, k) in post.cat.iter().zip(post.nrec.iter()) {
+                                            known.push((n.clone(), *k));
+                                        }
+                                        continue;
+                                    }
+                                } else {
+                                    let o = execute(&w, &e["cmd"], &agc, &wd, si, &mut known)?;
+                                    let bytes = std::fs::read(&agc).unwrap_or_default();
+                                    g.insert(key, (bytes, event(&e["cmd"], &o), o.exit, o.post.clone()));
+                                }
+                            }
+                            let o = if shareable {
+                                // first execution: run again below would double the cost; re-read what was stored
+                                let g = w.shared_first.lock().unwrap();
+                                let (_, ev, exit, post) = g.get(&e["cmd"].to_string()).unwrap().clone();
+                                Observed { run: Run { ms: 0, argv: ev["argv"].as_array().map(|a| a.iter().map(|x| x.as_str().unwrap_or("").to_string()).collect()).unwrap_or_default(),
+                                                      code: ev["code"].as_i64().map(|c| c as i32), stdout: vec![], stderr: String::new() },
+                                           exit, out: vec![], bytes: Some(vec![]), post }
+                            } else {
+                                execute(&w, &e["cmd"], &agc, &wd, si, &mut known)?
+                            };
+                            evs.push(event(&e["cmd"], &o));
+                            let verdict = judge(&w, e, &cur, &o, &agc, &wd)?;
+                            let mut g = acc.lock().unwrap();
+                            g.steps += 1;
+                            if o.exit == "fail" {
+                                g.failures_seen += 1;
+                            }
+                            if e["cmd"]["cmd"] == "create" && o.exit == "ok" {
+                                g.creates_ok += 1;
+                            }
+                            if o.exit == "ok" && e["cmd"]["cmd"] == "getset" && o.out.len() > 0 {
+                                let samples: std::collections::HashSet<String> = o.out.iter().map(|x| x["s"].to_string()).collect();
+                                if samples.len() >= 2 || e["cmd"]["names"].as_array().map(|x| x.len() >= 2).unwrap_or(false) {
+                                    g.composed += 1;
+                                }
+                            }
+                            if let Some((kind, detail)) = verdict {
+                                g.fails.push(json!({"behaviour": bi, "variant": variant, "step": si, "kind": kind, "detail": detail, "cmd": e["cmd"], "pre": cur.to_json(),
+                                    "argv": o.run.argv, "code": o.run.code, "observed": {"exit": o.exit, "out": o.out, "post": o.post.to_json()},
+                                    "allowed": e["allowed"], "mustfail": e["mustfail"], "lists": e["lists"], "stderr": o.run.stderr, "steps": steps}));
+                                break;
+                            }
+                            // same branch as the mechanism model?  (otherwise the later steps start from another state)
+                            let ch = &e["chosen"];
+                            let charch = Arch::from_json(&ch["arch"]);
+                            let same = ch["exit"].as_str() == Some(o.exit) && (charch.kind == "any" || charch == o.post);
+                            if !same {
+                                g.diverged.push(json!({"behaviour": bi, "step": si, "argv": o.run.argv, "model": ch, "observed": {"exit": o.exit, "post": o.post.to_json()}}));
+                                break;
+                            }
+                            cur = o.post.clone();
+                        }
+                        acc.lock().unwrap().events.push((bi, variant, evs));
+                        Ok(())
+                    })();
+                    if let Err(e) = r {
+                        acc.lock().unwrap().err = Some(format!("behaviour {}: {:#}", bi, e));
+                    }
+                    let _ = std::fs::remove_dir_all(&wd);
+                }
+            });
+        }
+    });
+    let mut g = acc.into_inner().unwrap();
+    if let Some(e) = g.err {
+        bail!("{}", e);
+    }
+    if let Some(p) = a.opt("events") {
+        g.events.sort_by_key(|x| (x.0, x.1));
+        let mut f = std::io::BufWriter::new(std::fs::File::create(p)?);
+        for (_, _, evs) in &g.events {
+            for e in evs {
+                writeln!(f, "{}", e)?;
+            }
+        }
+    }
+    g.fails.sort_by_key(|f| (f["behaviour"].as_u64(), f["variant"].as_u64()));
+    println!(
+        "{}",
+        json!({"behaviours": behs.len(), "executions": g.executions, "steps": g.steps, "fails": g.fails, "diverged": g.diverged, "composed": g.composed,
+               "creates_ok": g.creates_ok, "failures_seen": g.failures_seen, "skipped_variants": g.skipped_variants, "process_runs": RUNS.load(Ordering::SeqCst)})
+    );
+    Ok(())
+}
+
+// ------------------------------------------------------------------------------------------------
+// rvh cli-setup: build the archive of the "getset" family with the real binary and report its catalogue
+// ------------------------------------------------------------------------------------------------
+fn cmd0() -> Value {
+    json!({"cmd": "none", "mode": "names", "names": [], "prefix": [], "dest": "stdout", "batch": false, "adaptive": false, "concat": false,
+           "threads": 1, "qcap": "default", "inputs": [], "outpath": "ok"})
+}
+
+fn create_cmd(files: &[Vec<(Name, usize)>], threads: u64, qcap: &str) -> Value {
+    let mut c = cmd0();
+    c["cmd"] = json!("create");
+    c["threads"] = json!(threads);
+    c["qcap"] = json!(qcap);
+    c["inputs"] = Value::Array(
+        files.iter().map(|ss| json!({"readable": true, "samples": ss.iter().map(|(n, k)| json!({"name": n, "nrec": k})).collect::<Vec<_>>()})).collect(),
+    );
+    c
+}
+
+fn setup(a: &Args) -> Result<()> {
+    let w = World { ragc: a.get("ragc")?.to_string(), seed: a.num("seed", 1u64), obs: Mutex::new(HashMap::new()), singles: Mutex::new(HashMap::new()), shared_first: Mutex::new(HashMap::new()) };
+    let dir = PathBuf::from(a.get("dir")?);
+    std::fs::create_dir_all(&dir)?;
+    let agc = PathBuf::from(a.get("agc")?);
+    // samples: "ab:2,aa:3,ba:1" ; --single puts them all in one (PanSN) file
+    let spec = a.opt("samples").unwrap_or("ab:2,aa:3,ba:1");
+    let samples: Vec<(Name, usize)> = spec
+        .split(',')
+        .map(|s| {
+            let mut it = s.split(':');
+            (unrender(it.next().unwrap_or("")), it.next().and_then(|x| x.parse().ok()).unwrap_or(1))
+        })
+        .collect();
+    let files: Vec<Vec<(Name, usize)>> = if a.flag("single") { vec![samples.clone()] } else { samples.iter().map(|s| vec![s.clone()]).collect() };
+    let cmd = create_cmd(&files, a.num("threads", 2u64), "default");
+    let mut known = vec![];
+    let o = execute(&w, &cmd, &agc, &dir, 0, &mut known)?;
+    println!(
+        "{}",
+        json!({"exit": o.exit, "code": o.run.code, "argv": o.run.argv, "stderr": o.run.stderr, "requested": samples.iter().map(|(n, k)| json!({"name": n, "nrec": k})).collect::<Vec<_>>(),
+               "kind": o.post.kind,
+               "samples": o.post.cat.iter().zip(o.post.nrec.iter()).map(|(n, k)| json!({"name": n, "nrec": k})).collect::<Vec<_>>()})
+    );
+    Ok(())
+}
+
+// ------------------------------------------------------------------------------------------------
+// rvh trace-cli: seeded random sessions on the real binary, logged for Trace_Cli.tla
+// ------------------------------------------------------------------------------------------------
+fn rand_name(r: &mut StdRng, pansn: bool) -> Name {
+    let l = r.gen_range(1..=3);
+    let mut n: Name = (0..l).map(|_| r.gen_range(1..=3u8)).collect();
+    if pansn {
+        n.push(4);
+        n.push(r.gen_range(5..=6));
+    }
+    n
+}
+
+fn rand_read(r: &mut StdRng, cat: &[(Name, usize)], pansn: bool) -> Value {
+    let mut c = cmd0();
+    let pick = |r: &mut StdRng| -> Name {
+        if cat.is_empty() || r.gen_bool(0.12) {
+            // unknown: random, or a proper prefix / an extension of a real name
+            if !cat.is_empty() && r.gen_bool(0.5) {
+                let mut n = cat[r.gen_range(0..cat.len())].0.clone();
+                if r.gen_bool(0.5) && n.len() > 1 { n.pop(); } else { n.push(r.gen_range(1..=3)); }
+                n
+            } else {
+                rand_name(r, pansn)
+            }
+        } else {
+            cat[r.gen_range(0..cat.len())].0.clone()
+        }
+    };
+    let x = r.gen_range(0..100);
+    if x < 55 {
+        c["cmd"] = json!("getset");
+        let l = if r.gen_bool(0.3) { r.gen_range(1..=2) } else { r.gen_range(2..=6) };
+        c["names"] = json!((0..l).map(|_| pick(r)).collect::<Vec<_>>());
+    } else if x < 80 {
+        c["cmd"] = json!("getset");
+        c["mode"] = json!("prefix");
+        let p: Name = if cat.is_empty() || r.gen_bool(0.15) {
+            (0..r.gen_range(0..=2)).map(|_| r.gen_range(1..=3u8)).collect()
+        } else {
+            let n = &cat[r.gen_range(0..cat.len())].0;
+            n[..r.gen_range(0..=n.len())].to_vec()
+        };
+        c["prefix"] = json!(p);
+    } else if x < 93 {
+        c["cmd"] = json!("listctg");
+        let l = r.gen_range(1..=3);
+        c["names"] = json!((0..l).map(|_| pick(r)).collect::<Vec<_>>());
+    } else {
+        c["cmd"] = json!("listset");
+    }
+    let d = r.gen_range(0..100);
+    c["dest"] = json!(if d < 48 { "stdout" } else if d < 95 { "file" } else { "badfile" });
+    c
+}
+
+fn trace(a: &Args) -> Result<()> {
+    let seed = a.num("seed", 1u64);
+    let w = World { ragc: a.get("ragc")?.to_string(), seed, obs: Mutex::new(HashMap::new()), singles: Mutex::new(HashMap::new()), shared_first: Mutex::new(HashMap::new()) };
+    let dir = PathBuf::from(a.get("dir")?);
+    std::fs::create_dir_all(&dir)?;
+    let ncases: usize = a.num("cases", 4usize);
+    let nreads: usize = a.num("reads", 12usize);
+    let jobs: usize = a.num("jobs", 4usize);
+    let next = AtomicUsize::new(0);
+    let all: Mutex<Vec<(usize, Vec<Value>)>> = Mutex::new(vec![]);
+    let err: Mutex<Option<String>> = Mutex::new(None);
+    std::thread::scope(|sc| {
+        for _ in 0..jobs.max(1) {
+            sc.spawn(|| loop {
+                let ci = next.fetch_add(1, Ordering::SeqCst);
+                if ci >= ncases || err.lock().unwrap().is_some() {
+                    break;
+                }
+                let res = (|| -> Result<Vec<Value>> {
+                    let mut r = util::rng(seed.wrapping_mul(7919).wrapping_add(ci as u64));
+                    let wd = dir.join(format!("t{}", ci));
+                    std::fs::create_dir_all(&wd)?;
+                    let agc = wd.join("a.agc");
+                    let pansn = ci % 3 == 2;
+                    let mut cat: Vec<(Name, usize)> = vec![];
+                    let m = r.gen_range(2..=5);
+                    while cat.len() < m {
+                        let n = rand_name(&mut r, pansn);
+                        if !cat.iter().any(|(x, _)| *x == n) {
+                            cat.push((n, r.gen_range(1..=3)));
+                        }
+                    }
+                    let files: Vec<Vec<(Name, usize)>> = if pansn { vec![cat.clone()] } else { cat.iter().map(|s| vec![s.clone()]).collect() };
+                    let mut known = vec![];
+                    let mut cur = w.observe(&agc, &wd)?;
+                    let mut evs = vec![json!({"ev": "start", "post": cur.to_json(), "case": ci})];
+                    let qcaps = ["default", "1K", "64K", "3000", "default"];
+                    let c = create_cmd(&files, r.gen_range(1..=4), qcaps[r.gen_range(0..qcaps.len())]);
+                    let mut step = 0usize;
+                    let o = execute(&w, &c, &agc, &wd, step, &mut known)?;
+                    evs.push(event(&c, &o));
+                    cur = o.post.clone();
+                    for _ in 0..nreads {
+                        step += 1;
+                        let c = if r.gen_bool(0.08) {
+                            // a create that has to fail or is unsupported, over the existing archive
+                            let mut c = create_cmd(&[vec![(rand_name(&mut r, false), 1)]], r.gen_range(1..=4), "default");
+                            match r.gen_range(0..5) {
+                                0 => c["batch"] = json!(true),
+                                1 => c["adaptive"] = json!(true),
+                                2 => c["concat"] = json!(true),
+                                3 => c["inputs"][0]["readable"] = json!(false),
+                                _ => c["outpath"] = json!("unwritable"),
+                            }
+                            c
+                        } else {
+                            let live: Vec<(Name, usize)> = cur.cat.iter().cloned().zip(cur.nrec.iter().cloned()).collect();
+                            rand_read(&mut r, &live, pansn)
+                        };
+                        let o = execute(&w, &c, &agc, &wd, step, &mut known)?;
+                        evs.push(event(&c, &o));
+                        cur = o.post.clone();
+                    }
+                    let _ = std::fs::remove_dir_all(&wd);
+                    Ok(evs)
+                })();
+                match res {
+                    Ok(evs) => all.lock().unwrap().push((ci, evs)),
+                    Err(e) => *err.lock().unwrap() = Some(format!("case {}: {:#}", ci, e)),
+                }
+            });
+        }
+    });
+    if let Some(e) = err.into_inner().unwrap() {
+        bail!("{}", e);
+    }
+    let mut all = all.into_inner().unwrap();
+    all.sort_by_key(|x| x.0);
+    let mut f = std::io::BufWriter::new(std::fs::File::create(a.get("out")?)?);
+    let mut n = 0;
+    for (_, evs) in &all {
+        for e in evs {
+            writeln!(f, "{}", e)?;
+            n += 1;
+        }
+    }
+    println!("{}", json!({"cases": all.len(), "events": n, "process_runs": RUNS.load(Ordering::SeqCst)}));
+    Ok(())
 }
